@@ -10,7 +10,7 @@ var propC02 = &modelProp{
 	id: "C02",
 	profile: func() *Profile {
 		return &Profile{
-			Property: "C02", MaxOps: pick(14, 30),
+			Property: "C02", WordShiftPct: 10, MaxOps: pick(14, 30),
 			W:          map[string]int{"insert": 8, "update": 6, "delete": 3, "many": 2, "query": 12, "searchDelete": 3, "reopen": 2, "resurrect": 1},
 			AllowCache: true, AllowCompress: true, AllowAsync: true,
 			MinIndexed: 1, MaxIndexed: 5, MaxUnique: 1, CasePaths: 1,
@@ -72,7 +72,7 @@ var propC03 = &modelProp{
 	id: "C03",
 	profile: func() *Profile {
 		return &Profile{
-			Property: "C03", MaxOps: pick(15, 35),
+			Property: "C03", WordShiftPct: 10, MaxOps: pick(15, 35),
 			W:          map[string]int{"insert": 8, "update": 8, "resave": 2, "delete": 4, "resurrect": 2, "many": 2, "bulk": 1, "reopen": 3, "abandonReopen": 1, "upsertUUID": 1, "query": 1},
 			AllowCache: true, AllowCompress: true, AllowAsync: true,
 			MinUnique: 1, MaxUnique: 3, MaxIndexed: 1, CasePaths: 1,
